@@ -592,6 +592,8 @@ class Engine:
         if seq is not None:
             env[kname] = 0
             env["_seq%d" % ordinal] = seq
+        for name, d in getattr(spec, "defs", []):
+            self.assume(self.spec_eval(d, env, old_env=self.entry_env0, extra={"entry": entry_env}))
         # 1. established
         for name, inv in spec.invariants:
             self.oblige("inv.init", f"loop{ordinal}.{name}", self.spec_eval(inv, env, old_env=self.entry_env0, extra={"entry": entry_env}), node)
